@@ -25,6 +25,9 @@ def drive(ctx, groups, extras=True, name="watch"):
     vlib.go_run(ctx, binary, "TestWatch", {"VERIF_IN": inp, "VERIF_OUT": out, "VERIF_EXTRAS": "1" if extras else "0",
                                             "VERIF_FOREIGN_BM": m.group(1) if m else ""},
                 timeout=2400)
+    if ctx.tier == "thorough" and name == "watch":
+        vlib.race_stage(ctx, "c02", "TestWatch", {"VERIF_IN": inp, "VERIF_OUT": out, "VERIF_EXTRAS": "1" if extras else "0",
+                                                  "VERIF_FOREIGN_BM": m.group(1) if m else ""})
     return ["%s.%d.ndjson" % (out, i) for i in range(len(groups))]
 
 
